@@ -12,7 +12,7 @@ head = sh("git -C /repo rev-parse HEAD").stdout.strip()
 for d in sorted(glob.glob("/verif/seeded/*")):
     name = os.path.basename(d)
     if prefixes and not any(name.startswith(p) for p in prefixes): continue
-    prop = name.split("-")[0]
+    prop = name.split("-")[0][:3]
     sh(f"git -C {WT} checkout -q --detach {head} && git -C {WT} checkout -- . && git -C {WT} clean -fdq -e target")
     r = sh(f"git -C {WT} apply {d}/patch.diff")
     if r.returncode != 0:
